@@ -76,3 +76,27 @@ Section CurData.
     - eapply node_complex; eauto using cur_data_ok_but.
   Qed.
 End CurData.
+
+(* ---- the current source wraps every element array per cell block (complex element data: fix c241a79) ---- *)
+Lemma cur_data_ok : data_ok cur = true.
+Proof. vm_compute. reflexivity. Qed.
+
+Section CurComplexElement.
+  Variable X : Type.
+  Variables (x0 : X) (xadd : X -> X -> X) (xre xim xabs2 xsqrt xlog : X -> X).
+  Variable call : list (list X) -> list (list X).
+  Variable call_cplx : bool.
+  Lemma cur_complex_element : forall m cplx vals c n npts,
+    m <> TCall -> rect X vals c n = true -> (1 <= c)%nat -> out_complex call_cplx m cplx = true ->
+    exists k1 k2, k1 <> k2 /\
+      export_data X x0 xadd xre xim xabs2 xsqrt xlog call call_cplx cur Element cplx m vals n npts n =
+        Some [(k1, map (map xre) (transpose X x0 n (transform X x0 xadd xre xim xabs2 xsqrt xlog call m vals n)));
+              (k2, map (map xim) (transpose X x0 n (transform X x0 xadd xre xim xabs2 xsqrt xlog call m vals n)))].
+  Proof. intros. eapply element_complex_wrapped; eauto using cur_data_ok. Qed.
+End CurComplexElement.
+
+(* the current source still maps an all-zero grid to domain index 1 (recorded finding) *)
+Lemma roundtrip_zero_refuted_cur :
+  exists g : grid unit, wf_grid unit g = true /\
+    gd (import_grid unit cur (export_grid unit (fun l => nodup Z.eq_dec l) cur true g)) <> gd g.
+Proof. exists zero_grid. split; [reflexivity|]. vm_compute. discriminate. Qed.
